@@ -34,6 +34,12 @@ enum TaskKind {
 }
 
 impl TaskKind {
+    /// Subscriber calls that go through the acquisition future stored in the
+    /// subscriber itself (`get_lock`), which survives the caller's future.
+    fn uses_stored_acquisition(self) -> bool {
+        matches!(self, TaskKind::SubNext(_) | TaskKind::SubNextRef(_) | TaskKind::SubStream(_))
+    }
+
     fn sub(self) -> Option<u8> {
         match self {
             TaskKind::SubNext(s) | TaskKind::SubNextRef(s) | TaskKind::SubNextNow(s) | TaskKind::SubStream(s) => Some(s),
@@ -115,6 +121,9 @@ struct TaskR {
     flag: Option<Arc<Flag>>,
     /// value read at acquisition (read guard tasks)
     done: bool,
+    /// the last poll answered Pending while the lock was held or queued for
+    /// by a writer: the task may be waiting in the lock's queue
+    queued_for_lock: bool,
 }
 
 struct AGuardH;
@@ -138,6 +147,7 @@ impl Harness for AGuardH {
                     if !m.sub_busy[s as usize] {
                         out.push(ATok::Spawn(TaskKind::SubNextRef(s)));
                         out.push(ATok::Spawn(TaskKind::SubNext(s)));
+                        out.push(ATok::Spawn(TaskKind::SubNextNow(s)));
                     }
                 }
             }
@@ -234,6 +244,11 @@ struct AWorld {
     /// earlier idle poll that answered Pending): `Settle` polls it again
     idle: Vec<Option<Arc<Flag>>>,
     left_behind: Vec<bool>,
+    /// Known finding F14: the subscriber's stored lock acquisition was left
+    /// queued by a cancelled `next()` / `next_ref()` / stream poll. It is
+    /// granted a read permit when its turn comes and keeps it until the
+    /// subscriber is polled that way again or dropped.
+    phantom: Vec<bool>,
     /// model: observed epoch per subscriber
     seen: Vec<u32>,
     value: u8,
@@ -247,7 +262,7 @@ impl AWorld {
         let ob = SharedObservable::new_async(PV::mk(0));
         let subs = (0..cfg.nsubs).map(|_| Rc::new(RefCell::new(now(ob.subscribe())))).collect();
         let n = cfg.nsubs as usize;
-        AWorld { cfg: cfg.clone(), ob, subs, busy: vec![false; n], idle: vec![None; n], left_behind: vec![false; n], seen: vec![1; cfg.nsubs as usize], value: 0, epoch: 1, tasks: vec![], step: 0 }
+        AWorld { cfg: cfg.clone(), ob, subs, busy: vec![false; n], idle: vec![None; n], left_behind: vec![false; n], phantom: vec![false; n], seen: vec![1; cfg.nsubs as usize], value: 0, epoch: 1, tasks: vec![], step: 0 }
     }
 
     fn holders(&self) -> (usize, usize) {
@@ -301,7 +316,7 @@ impl AWorld {
             TaskKind::SetIfNotEq(v) => Box::pin(async move { TaskOut::OptPrev(ob.set_if_not_eq(PV::mk(v)).await.map(|p| p.code())) }),
             TaskKind::Get => Box::pin(async move { TaskOut::Value(ob.get().await.code()) }),
             TaskKind::SubNext(s) => {
-                let rc = self.claim(s);
+                let rc = self.claim(s, kind);
                 Box::pin(async move {
                     let mut sub = rc.borrow_mut();
                     let r = sub.next().await.map(|v| v.code());
@@ -309,7 +324,7 @@ impl AWorld {
                 })
             }
             TaskKind::SubNextRef(s) => {
-                let rc = self.claim(s);
+                let rc = self.claim(s, kind);
                 Box::pin(async move {
                     let mut sub = rc.borrow_mut();
                     let r = sub.next_ref().await.map(|g| g.code());
@@ -317,7 +332,7 @@ impl AWorld {
                 })
             }
             TaskKind::SubNextNow(s) => {
-                let rc = self.claim(s);
+                let rc = self.claim(s, kind);
                 Box::pin(async move {
                     let mut sub = rc.borrow_mut();
                     let r = sub.next_now().await.code();
@@ -325,7 +340,7 @@ impl AWorld {
                 })
             }
             TaskKind::SubStream(s) => {
-                let rc = self.claim(s);
+                let rc = self.claim(s, kind);
                 Box::pin(async move {
                     let mut sub = rc.borrow_mut();
                     let r = std::future::poll_fn(|cx| Pin::new(&mut *sub).poll_next(cx)).await.map(|v| v.code());
@@ -333,15 +348,19 @@ impl AWorld {
                 })
             }
         };
-        self.tasks.push(TaskR { kind, fut: Some(fut), gate, holding, flag: None, done: false });
+        self.tasks.push(TaskR { kind, fut: Some(fut), gate, holding, flag: None, done: false, queued_for_lock: false });
     }
 
-    fn claim(&mut self, s: u8) -> Rc<RefCell<ASub>> {
+    fn claim(&mut self, s: u8, kind: TaskKind) -> Rc<RefCell<ASub>> {
         let s = s as usize;
         assert!(!self.busy[s], "subscriber is free");
         self.busy[s] = true;
         self.idle[s] = None;
         self.left_behind[s] = false;
+        if kind.uses_stored_acquisition() {
+            // its first poll drives the stored acquisition on
+            self.phantom[s] = false;
+        }
         self.subs[s].clone()
     }
 
@@ -368,6 +387,10 @@ impl AWorld {
         match r {
             Poll::Pending => {
                 self.tasks[k].flag = Some(flag);
+                let writer_queued = self.tasks.iter().enumerate().any(|(j, t)| {
+                    j != k && !t.done && t.fut.is_some() && matches!(t.kind, TaskKind::Set(_) | TaskKind::SetIfNotEq(_) | TaskKind::WGuard(_)) && !*t.holding.borrow()
+                });
+                self.tasks[k].queued_for_lock = !was_holding && (w_before > 0 || writer_queued);
                 if !was_holding && (w_before > 0 || (r_before > 0 && matches!(kind, TaskKind::Set(_) | TaskKind::SetIfNotEq(_) | TaskKind::WGuard(_)))) {
                     st.mark("task_waits_for_the_lock");
                     if matches!(kind, TaskKind::SubNext(_) | TaskKind::SubNextRef(_) | TaskKind::SubStream(_)) && w_before > 0 {
@@ -501,6 +524,7 @@ impl AWorld {
     /// cancelled task) once, as a stream.
     fn poll_idle(&mut self, s: usize, st: &mut Stats) -> Result<(), Violation> {
         self.left_behind[s] = false;
+        self.phantom[s] = false;
         let (flag, waker) = flag_waker();
         let mut cx = Context::from_waker(&waker);
         let r = {
@@ -552,6 +576,15 @@ impl AWorld {
                 _ => false,
             };
             if !legit {
+                if let Some(s) = self.phantom.iter().position(|p| *p) {
+                    return Err(self.v(
+                        "abandoned-lock-acquisition-holds-the-lock",
+                        format!(
+                            "task {k} ({:?}) can never finish: a next() / next_ref() / stream poll of subscriber {s} was cancelled while it was queued for the lock; the acquisition lives on inside the subscriber, has been granted a read permit and keeps it until that subscriber is polled that way again or dropped",
+                            t.kind
+                        ),
+                    ));
+                }
                 return Err(self.v(
                     "lost-wakeup/task-stuck",
                     format!(
@@ -574,7 +607,7 @@ impl AWorld {
                         if self.busy[s as usize] {
                             // its previous task is still pending: keep task
                             // indices aligned with the enumeration model
-                            self.tasks.push(TaskR { kind, fut: None, gate: Rc::new(RefCell::new(GateState::default())), holding: Rc::new(RefCell::new(false)), flag: None, done: true });
+                            self.tasks.push(TaskR { kind, fut: None, gate: Rc::new(RefCell::new(GateState::default())), holding: Rc::new(RefCell::new(false)), flag: None, done: true, queued_for_lock: false });
                             continue;
                         }
                     }
@@ -614,6 +647,7 @@ impl AWorld {
                             st.hit("pending_task_cancelled");
                         }
                         let was_pending = t.fut.is_some() && t.flag.is_some();
+                        let phantom = was_pending && t.queued_for_lock && t.kind.uses_stored_acquisition();
                         t.fut = None; // drops the future: guards and queue entries are released
                         t.done = true;
                         if let Some(s) = t.kind.sub() {
@@ -621,6 +655,9 @@ impl AWorld {
                             let s = s as usize;
                             self.busy[s] = false;
                             self.left_behind[s] = was_pending;
+                            if phantom {
+                                self.phantom[s] = true;
+                            }
                             if was_pending {
                                 st.mark("subscriber_task_cancelled_subscriber_kept");
                             }
